@@ -62,9 +62,14 @@ fn node(i: usize) -> DependencyNode {
 }
 
 /// C20, second sentence: the build-order resolver (Kahn) — BOUNDED only
-fn kahn_case(n: usize, edges: u32, repeat: usize) -> Result<String, String> {
+fn kahn_case(n: usize, edges: u32, repeat: usize) -> Result<String, String> { kahn_case_registered(n, edges, repeat, 0) }
+
+/// `registration`: 0 = every node once, before the edges; 1 = every node before and again after the edges; 2 = the edges first
+/// (their ends become known through them), then every node (which adds the isolated ones); 3 = node 0 twice in a row
+fn kahn_case_registered(n: usize, edges: u32, repeat: usize, registration: usize) -> Result<String, String> {
     let mut r = DependencyResolver::new();
-    for i in 0..n { r.add_node(node(i)); }
+    if registration != 2 { for i in 0..n { r.add_node(node(i)); } }
+    if registration == 3 { r.add_node(node(0)); }
     // `repeat` > 1: the same (from, to) pair is recorded several times, with different dependency kinds (a struct that uses a
     // type both as a field and as a generic argument)
     // every kind of dependency orders its two ends; the kind of an edge is chosen from its position so that all five occur
@@ -72,6 +77,7 @@ fn kahn_case(n: usize, edges: u32, repeat: usize) -> Result<String, String> {
     for k in 0..repeat { for u in 0..n { for v in 0..n { if edges & (1 << (u * n + v)) != 0 {
         r.add_dependency(Dependency { from: node(u), to: node(v), dependency_type: kinds[(k + u * n + v) % 5].clone() });
     } } } }
+    if registration == 1 || registration == 2 { for i in 0..n { r.add_node(node(i)); } }
     let reach_m = reach(n, edges);
     let acyclic = (0..n).all(|u| edges & (1 << (u * n + u)) == 0 && (0..n).all(|v| u == v || !(reach_m[u][v] && reach_m[v][u])));
     match r.resolve_build_order() {
@@ -135,6 +141,12 @@ fn main() {
             rep.case("resolve_build_order", &format!("n={} edges={}", n, edges), &|| kahn_case(n, edges, 1));
             if n <= 3 || edges % 5 == 0 { rep.case("resolve_build_order", &format!("n={} edges={} every edge recorded twice", n, edges), &|| kahn_case(n, edges, 2)); }
             if n <= 3 { rep.case("resolve_build_order", &format!("n={} edges={} every edge recorded three times", n, edges), &|| kahn_case(n, edges, 3)); }
+            // a node is one node however often and whenever it is registered
+            if n <= 3 || edges % 7 == 0 {
+                for (reg, label) in [(1, "every node registered before and after the edges"), (2, "edges first, then every node"), (3, "the first node registered twice")] {
+                    rep.case("resolve_build_order", &format!("n={} edges={} {}", n, edges, label), &|| kahn_case_registered(n, edges, 1, reg));
+                }
+            }
         }
     }
     // quick (depth <= 4): all graphs on <= 3 nodes, every 23rd graph on 4 nodes; thorough: all 65 536
